@@ -165,6 +165,15 @@ def generate_coq(all_specs):
                 if not rows:
                     raise KeyError("no call")
                 term = "[" + "; ".join(rows) + "]"
+            elif kind == "assign_src":
+                # source text of the right-hand side of every assignment / var declaration of `lhs` inside func
+                fn = f["funcs"][s["func"]]
+                typ = "list bytes"
+                rhs = [re.sub(r"\s+", " ", a["rhs"]) for a in fn.get("assigns", []) if a["lhs"] == s["lhs"]]
+                if not rhs:
+                    raise KeyError("no assignment")
+                term = "[" + "; ".join(coq_string_bytes(t) for t in rhs) + "]"
+                comment = " | ".join(rhs)
             elif kind == "has_call":
                 fn = f["funcs"][s["func"]]
                 typ = "bool"
